@@ -241,7 +241,7 @@ def run(prop, tier, seed, log, model_runs, enlarged, oracle_cls, profiles, n_qui
             return st == "ok" and any(f["what"] == what and not (classify and classify(f, c) in open_classes) for f in fl)
         small = shrink(v["program"], still)
         st, fl = run_oracle(oracle_cls, small, 20)
-        fl = [f for f in fl if f["what"] == what] if st == "ok" else []
+        fl = [f for f in fl if f["what"] == what and not (classify and classify(f, small) in open_classes)] if st == "ok" else []
         if fl:
             v["program"] = small
             v["failure"] = fl[0]
